@@ -96,6 +96,10 @@ func genTotCase(rng *rand.Rand) (*totCase, []string) {
 		var cons []string
 		if rng.Intn(4) == 0 {
 			cons = []string{"X-K", []string{"^v", "", "1"}[rng.Intn(3)]}
+			if rng.Intn(3) == 0 {
+				// two criteria that name the same header in different spellings: both must hold
+				cons = []string{"x-k", []string{"^v", "1$", ""}[rng.Intn(3)], "X-K", []string{"1", "^v1$", "z"}[rng.Intn(3)]}
+			}
 		}
 		c.Cons = append(c.Cons, cons)
 	}
@@ -162,51 +166,64 @@ func buildTot(c *totCase) *totInstance {
 	if c.NF == "custom" {
 		ti.f.NotFound(func() (int, string) { ti.cur.nf++; return 404, "custom-nf" })
 	}
-	for i, txt := range c.Routes {
-		m := c.Methods[i]
-		mr, err := rmodel.Parse(txt)
-		if err != nil {
-			continue
-		}
-		if ti.models[m] == nil {
-			ti.models[m] = rmodel.New()
-		}
-		forms, cat, judged := ti.models[m].Check(i, mr)
-		if !judged || cat != rmodel.RejNone {
-			continue // only valid route sets are the subject here
-		}
-		i := i
-		var pan interface{}
-		func() {
-			defer func() { pan = recover() }()
-			rt := ti.f.Route(m, txt, []flamego.Handler{func(ctx flamego.Context) string {
-				ti.cur.hit = append(ti.cur.hit, i)
-				keys := make([]string, 0, len(ctx.Params()))
-				for k := range ctx.Params() {
-					keys = append(keys, k)
-				}
-				sort.Strings(keys)
-				var sb strings.Builder
-				for _, k := range keys {
-					sb.WriteString(k + "=" + ctx.Param(k) + ";")
-				}
-				ti.cur.params = sb.String()
-				return fmt.Sprintf("route-%d", i)
-			}})
-			if i < len(c.Cons) && c.Cons[i] != nil {
-				rt.Headers(c.Cons[i]...)
-				cm := map[string]*regexp.Regexp{}
-				for k := 1; k < len(c.Cons[i]); k += 2 {
-					cm[c.Cons[i][k-1]] = regexp.MustCompile(c.Cons[i][k])
-				}
-				ti.cons[i] = cm
+	regAll := func() {
+		for i, txt := range c.Routes {
+			m := c.Methods[i]
+			mr, err := rmodel.Parse(txt)
+			if err != nil {
+				continue
 			}
-		}()
-		if pan != nil {
-			ti.ok = false // accept disagreement: C08's subject
-			return ti
+			if ti.models[m] == nil {
+				ti.models[m] = rmodel.New()
+			}
+			forms, cat, judged := ti.models[m].Check(i, mr)
+			if !judged || cat != rmodel.RejNone {
+				continue // only valid route sets are the subject here
+			}
+			i := i
+			var pan interface{}
+			func() {
+				defer func() { pan = recover() }()
+				rt := ti.f.Route(m, txt, []flamego.Handler{func(ctx flamego.Context) string {
+					ti.cur.hit = append(ti.cur.hit, i)
+					keys := make([]string, 0, len(ctx.Params()))
+					for k := range ctx.Params() {
+						keys = append(keys, k)
+					}
+					sort.Strings(keys)
+					var sb strings.Builder
+					for _, k := range keys {
+						sb.WriteString(k + "=" + ctx.Param(k) + ";")
+					}
+					ti.cur.params = sb.String()
+					return fmt.Sprintf("route-%d", i)
+				}})
+				if i < len(c.Cons) && c.Cons[i] != nil {
+					rt.Headers(c.Cons[i]...)
+					cm := map[string]*regexp.Regexp{}
+					for k := 1; k < len(c.Cons[i]); k += 2 {
+						cm[c.Cons[i][k-1]] = regexp.MustCompile(c.Cons[i][k])
+					}
+					ti.cons[i] = cm
+				}
+			}()
+			if pan != nil {
+				ti.ok = false // accept disagreement: C08's subject
+				return
+			}
+			ti.models[m].Commit(i, mr, forms)
 		}
-		ti.models[m].Commit(i, mr, forms)
+	}
+	if len(c.Routes)%3 == 0 {
+		// all routes are siblings inside two nested groups (empty group paths, pass-through group handlers): the
+		// chain that runs must still be the chosen route's own
+		pass := func(ctx flamego.Context) { ctx.Next() }
+		plain := func() {}
+		ti.f.Group("", func() {
+			ti.f.Group("", regAll, plain)
+		}, pass, plain)
+	} else {
+		regAll()
 	}
 	return ti
 }
